@@ -24,7 +24,7 @@ inductive Err where
   | valueError     -- `hom_deg < 0`, or `dgms` empty (and no critical pairs)
   | indexError     -- `dgms[hom_deg]` out of range, or `A[-1]` on an empty diagram
   | nonFinite      -- outside the model (see above)
-  | fuel           -- never produced: the loops are fuelled generously (n+1 rounds)
+  | fuel           -- never produced (theorem `exact_never_fuel`): the loops are fuelled with n+1 rounds
   deriving DecidableEq, Repr
 
 /-- result of the sweep: the critical points per depth, and how many times the shortcut fired -/
@@ -151,8 +151,9 @@ def exact (dgms : List (List (α × Option α))) (homDeg : Int) : Except Err (Ou
     | some o => .ok o
     | none => .error .fuel
 
-/-- the sweep with the repeated-bar shortcut removed (every bar gets its own pass); used only to
-    state the stretch goal `sweep_correct_of_not_fired` and by the driver for diagnostics -/
+/-- the sweep with the repeated-bar shortcut removed (every bar gets its own pass): the reference
+    algorithm of `sweepNoShortcut_correct` / `sweep_correct_of_not_fired` (Props/C03.lean), also used by the
+    driver for diagnostics -/
 def outerNoShortcut : Nat → List (α × α) → List (List (α × α)) → Option (List (List (α × α)))
   | _, [], L => some L
   | 0, _ :: _, _ => none
